@@ -30,6 +30,7 @@ func runC17Gaps2(c *eng.Ctx) {
 	c17g2Lookup(c, &F)
 	c17g2Rewrap(c)
 	c17g2Batch(c)
+	c17g2LoopCarried(c)
 	c17g2HMAC(c)
 	c17g2Trim(c, &F)
 	c17g2PersistRollback(c)
@@ -984,6 +985,144 @@ func c17g2ArchiveCopy(c *eng.Ctx, F *c17fields) {
 			c.Violation(f, s2, h.Instr.Pos(), "an iteration of the copy loop can complete without writing the archive slot", h.Witness)
 		} else {
 			c.OK(f, s2, cp.st.Pos(), "every iteration of the loop passes the copy")
+		}
+	}
+}
+
+// ---------------------------------------------------------------------------
+// C17.2 nothing a batch item is processed with is carried over from the previous item
+
+// c17g2carried walks v backwards through the instructions that hand a slice or
+// value on unchanged (phi, the base of an append, re-slicing, conversions,
+// boxing). A cycle on that walk is a loop-carried accumulator: the value of one
+// iteration is built on the value of the previous one (var fs []any hoisted out
+// of the batch loop and appended to inside it). cell: the value lives in a
+// memory cell that is appended to in place (cannot be decided flow-insensitively).
+func c17g2carried(v ssa.Value) (cyc ssa.Value, cell ssa.Value) {
+	state := map[ssa.Value]int{}
+	var visit func(v ssa.Value)
+	visit = func(v ssa.Value) {
+		if v == nil || cyc != nil {
+			return
+		}
+		switch state[v] {
+		case 1:
+			cyc = v
+			return
+		case 2:
+			return
+		}
+		state[v] = 1
+		switch x := v.(type) {
+		case *ssa.Phi:
+			for _, e := range x.Edges {
+				visit(e)
+			}
+		case *ssa.Call:
+			if b, ok := x.Call.Value.(*ssa.Builtin); ok && b.Name() == "append" && len(x.Call.Args) > 0 {
+				visit(x.Call.Args[0])
+			}
+		case *ssa.Slice:
+			if _, arr := x.X.(*ssa.Alloc); !arr {
+				visit(x.X)
+			}
+		case *ssa.MakeInterface:
+			visit(x.X)
+		case *ssa.ChangeType:
+			visit(x.X)
+		case *ssa.Convert:
+			visit(x.X)
+		case *ssa.ChangeInterface:
+			visit(x.X)
+		case *ssa.UnOp:
+			if a, ok := x.X.(*ssa.Alloc); ok && x.Op == token.MUL && a.Referrers() != nil {
+				// a local kept in memory: appended to in place?
+				for _, r := range *a.Referrers() {
+					st, ok := r.(*ssa.Store)
+					if !ok || st.Addr != ssa.Value(a) {
+						continue
+					}
+					if k, ok := st.Val.(*ssa.Call); ok {
+						if b, ok := k.Call.Value.(*ssa.Builtin); ok && b.Name() == "append" && len(k.Call.Args) > 0 {
+							if ld, ok := k.Call.Args[0].(*ssa.UnOp); ok && ld.Op == token.MUL && ld.X == ssa.Value(a) {
+								cell = a
+							}
+						}
+					}
+				}
+			}
+		}
+		state[v] = 2
+	}
+	visit(v)
+	return
+}
+
+func c17g2LoopCarried(c *eng.Ctx) {
+	for _, h := range []struct{ fn, calls string }{
+		{"transit.(*backend).pathEncryptWrite", `^keysutil\.\(\*Policy\)\.EncryptWithFactory$`},
+		{"transit.(*backend).pathDecryptWrite", `^keysutil\.\(\*Policy\)\.DecryptWithFactory$`},
+		{"transit.(*backend).pathRewrapWrite", `^keysutil\.\(\*Policy\)\.(Decrypt|Encrypt)(WithFactory)?$`},
+		{"transit.(*backend).pathSignWrite", `^keysutil\.\(\*Policy\)\.SignWithOptions$`},
+		{"transit.(*backend).pathVerifyWrite", `^keysutil\.\(\*Policy\)\.VerifySignatureWithOptions$`},
+		{"transit.(*backend).pathHMACWrite", `^crypto/hmac\.New$|^<hash\.Hash>\.Write$`},
+		{"transit.(*backend).pathHMACVerify", `^keysutil\.\(\*Policy\)\.HMACKey$|^crypto/hmac\.New$|^<hash\.Hash>\.Write$|^crypto/hmac\.Equal$`},
+	} {
+		f := c.Fn(h.fn)
+		if f == nil {
+			continue
+		}
+		var inLoop []ssa.CallInstruction
+		for _, cl := range c17calls(f, h.calls) {
+			self := ssa.Instruction(cl)
+			if _, isDefer := cl.(*ssa.Defer); isDefer {
+				continue
+			}
+			if eng.Reach(eng.Query{Fn: f, StartAfter: cl, Target: func(in ssa.Instruction) bool { return in == self }}) != nil {
+				inLoop = append(inLoop, cl)
+			}
+		}
+		if !c.Floor(f, "per-item crypto calls inside the batch loop", len(inLoop), 1) {
+			continue
+		}
+		c.Clause("R7", "C17.2")
+		for _, cl := range inLoop {
+			site := "agree{no argument of " + strings.TrimPrefix(nfCallOf(cl).Name, "keysutil.(*Policy).") + " is carried over from the previous batch item}"
+			bad := false
+			vals := append([]ssa.Value{}, c17args(cl)...)
+			// the fields of an options / factory literal built for the call count as arguments
+			for _, a := range c17args(cl) {
+				for _, r := range eng.Roots(a, nil) {
+					if al, ok := r.(*ssa.Alloc); ok && al.Referrers() != nil {
+						for _, rr := range *al.Referrers() {
+							if fa, ok := rr.(*ssa.FieldAddr); ok && fa.Referrers() != nil {
+								for _, r3 := range *fa.Referrers() {
+									if st, ok := r3.(*ssa.Store); ok && st.Addr == ssa.Value(fa) {
+										vals = append(vals, st.Val)
+									}
+								}
+							}
+						}
+					}
+				}
+			}
+			for i, a := range vals {
+				cyc, cell := c17g2carried(a)
+				switch {
+				case cyc != nil:
+					bad = true
+					c.Violation(f, site, cl.Pos(), fmt.Sprintf("value #%d handed to the call (%s) is built on its own value of the previous loop iteration (%s): what one batch item appended is still there for the next item (a variable hoisted out of the batch loop)", i, eng.Expr(a), eng.Expr(cyc)), nil)
+				case cell != nil:
+					bad = true
+					c.Undecided(f, site, cl.Pos(), fmt.Sprintf("value #%d handed to the call is read from the local %s, which is appended to in place: whether it is reset for every batch item cannot be decided here", i, eng.Expr(cell)))
+				}
+				if bad {
+					break
+				}
+			}
+			if !bad {
+				c.OK(f, site, cl.Pos(), fmt.Sprintf("%d value(s): none is a loop-carried accumulator", len(vals)))
+			}
 		}
 	}
 }
